@@ -24,7 +24,11 @@ type c17Req struct {
 	HErr  bool   // the downstream handler returns an error
 	Fault string // "", "get1", "get2", "lock"
 	Late  bool
+	NoKey bool // the request carries no idempotency key
+	Safe  bool // the request uses a safe method (GET) although it carries the key
 }
+
+func (r c17Req) bypass() bool { return r.NoKey || r.Safe }
 
 // gatedLocker logs AFTER the real lock operation took effect; the real MemoryLock itself is not gated, a goroutine
 // blocked inside it is recognised by the scheduler from its wait reason.
@@ -71,6 +75,8 @@ func c17Scenarios() [][]c17Req {
 		{{Key: "k1"}, {Key: "k1", Fault: "get1"}, {Key: "k1", Fault: "get2"}},
 		{{Key: "k1", HErr: true}, {Key: "k1", HErr: true}, {Key: "k1"}, {Key: "k1", Late: true}},
 		{{Key: "k1"}, {Key: "k1"}, {Key: "k2"}, {Key: "k2", HErr: true}},
+		{{Key: "k1"}, {Key: "k1", NoKey: true}, {Key: "k1", Safe: true}, {Key: "k1", Late: true}},
+		{{Key: "k1", HErr: true}, {Key: "k1", Safe: true, HErr: true}, {Key: "k1", NoKey: true}, {Key: "k1", Safe: true, Late: true}},
 	}
 }
 
@@ -115,12 +121,12 @@ func TestC17Sched(t *testing.T) {
 		app := fiber.New()
 		app.Use(func(c fiber.Ctx) error {
 			p := s.procID()
-			s.gate("start", event{"ev": "start", "key": c.Get("X-Idempotency-Key"), "herr": sc[p-1].HErr, "fault": sc[p-1].Fault})
+			s.gate("start", event{"ev": "start", "key": strings.Repeat(sc[p-1].Key, 18), "herr": sc[p-1].HErr, "fault": sc[p-1].Fault, "byp": sc[p-1].bypass()})
 			return c.Next()
 		})
 		app.Use(idempotency.New(idempotency.Config{Lock: lk, Storage: st, Lifetime: time.Hour,
 			KeepResponseHeaders: []string{"X-Exec", "X-Multi", "Set-Cookie"}}))
-		app.Post("/", func(c fiber.Ctx) error {
+		app.Add([]string{"POST", "GET"}, "/", func(c fiber.Ctx) error {
 			p := s.procID()
 			s.gate("handler", event{"ev": "handler"})
 			if sc[p-1].HErr {
@@ -141,7 +147,14 @@ func TestC17Sched(t *testing.T) {
 		for i, r := range sc {
 			r, id := r, i+1
 			s.spawn(id, func() {
-				rc := doReqH(h, "POST", "/", "X-Idempotency-Key", strings.Repeat(r.Key, 18)) // keys must be 36 chars
+				method, hdr := "POST", []string{"X-Idempotency-Key", strings.Repeat(r.Key, 18)} // keys must be 36 chars
+				if r.Safe {
+					method = "GET"
+				}
+				if r.NoKey {
+					hdr = nil
+				}
+				rc := doReqH(h, method, "/", hdr...)
 				resp := c17Resp{Status: rc.Response.StatusCode(), Body: string(rc.Response.Body())}
 				var hs []string
 				rc.Response.Header.VisitAll(func(k, v []byte) {
@@ -202,6 +215,13 @@ func TestC17Sched(t *testing.T) {
 			// every answered duplicate carries byte-for-byte the response of the execution (status, body, kept headers)
 			byKey := map[string][]int{}
 			for i, r := range sc {
+				if r.bypass() { // unaffected by the key: must carry its OWN execution
+					if want := !r.HErr; want != (resps[i+1].Status < 500 && strings.Contains(resps[i+1].Headers, "X-Exec="+strconv.Itoa(i+1))) {
+						o.violation(map[string]any{"check": "keyless-or-safe-request-affected", "prop": "C17", "scenario": scIdx, "choices": choices, "request": i + 1,
+							"response": resps[i+1], "trace": s.events})
+					}
+					continue
+				}
 				if resps[i+1].Status < 500 {
 					byKey[r.Key] = append(byKey[r.Key], i+1)
 				}
